@@ -2,11 +2,41 @@
 From Sismic Require Import Base Chart Edit.
 Open Scope list_scope.
 
+(* remove_state once more, also returning the state OBJECTS it removes, in the order in which they are popped, with the values
+   they have at that moment (a client may keep a reference to a removed state and add it again): the children are removed
+   first, and each removal resets the initial / memory fields -- of every state still registered, hence also of states that
+   are removed later in the same call -- that name the removed state. *)
+Fixpoint remove_state_trace (fuel : nat) (c : chart) (n : name) : chart * list state * eres :=
+  match fuel with
+  | O => (c, [], EKeyError)
+  | S f =>
+      if negb (has_state c n) then (c, [], EStatechartError) else
+      let fix go (c : chart) (acc : list state) (chs : list name) : chart * list state * eres :=
+          match chs with
+          | [] => (c, acc, EOk)
+          | ch :: rest =>
+              match remove_state_trace f c ch with
+              | (c', l, EOk) => go c' (acc ++ l) rest
+              | (c', l, e) => (c', acc ++ l, e)
+              end
+          end in
+      match go c [] (children_for c n) with
+      | (c', l, EOk) =>
+          let popped := match lookup n (c_states c') with Some st => [clear_refs n st] | None => [] end in
+          (fst (remove_one c' n), l ++ popped, snd (remove_one c' n))
+      | (c', l, e) => (c', l, e)
+      end
+  end.
+Definition removed_objects (c : chart) (n : name) : list state :=
+  snd (fst (remove_state_trace (S (length (c_states c))) c n)).
+
 Record ecase := mkECase {
   ec_pre : chart;
   ec_op : eop;
   ec_res : eres;        (* implementation *)
   ec_post : chart;      (* implementation *)
+  ec_removed : list state;
+                        (* implementation, remove_state only: the removed state objects as they are after the call *)
   ec_queries : list (name * (Z * (list name * list name)))
                         (* implementation, after the call: depth_for, ancestors_for, descendants_for of every state
                            (the same queries were also made BEFORE the call, so that anything the implementation
@@ -16,14 +46,34 @@ Record ecase := mkECase {
 Definition bitN (b : bool) (v : N) : N := if b then 0%N else v.
 
 (* 1: outcome differs; 2: resulting chart differs (dictionary orders included);
-   4: Pb -- a successful edit of a sound chart gives an unsound chart (implementation output);
+   4: Pb -- a successful edit (arguments satisfying the side condition of C16_preserve) of a sound chart gives an unsound
+      chart (implementation output);
    8: Pb -- the edit raised StatechartError/ValueError but changed the chart (implementation output);
-   16: the traversal queries answered by the implementation after the call are not those of the resulting chart *)
+   16: the traversal queries answered by the implementation after the call are not those of the resulting chart;
+   32: remove_state: the removed state objects are not left as the documented recursion leaves them *)
+(* the side condition of C16_preserve (EditProofs.op_ok): a state is added without initial and with a memory that is unset
+   or already valid (a history state whose memory names an existing child of the parent, other than itself) *)
+Definition op_ok_b (c : chart) (op : eop) : bool :=
+  match op with
+  | EAddState st p =>
+      negb (str_eqb (s_name st) "") &&
+      (match p with Some "" => false | _ => true end) &&
+      (match s_initial st with None => true | Some _ => false end) &&
+      (match s_memory st with
+       | None => true
+       | Some m => is_history (s_kind st) && negb (str_eqb m (s_name st)) &&
+                   match p with Some q => mem m (children_for c q) | None => false end
+       end)
+  | ERenameState _ new => negb (str_eqb new "")
+  | _ => true
+  end.
+
 Definition check_ecase (c : ecase) : N :=
   let '(m, r) := apply_eop (ec_pre c) (ec_op c) in
   (bitN (eres_eqb r (ec_res c)) 1
    + bitN (chart_eqb m (ec_post c)) 2
-   + bitN (negb (sound_b (ec_pre c)) || negb (eres_eqb (ec_res c) EOk) || sound_b (ec_post c)) 4
+   + bitN (negb (sound_b (ec_pre c)) || negb (eres_eqb (ec_res c) EOk) || negb (op_ok_b (ec_pre c) (ec_op c))
+           || sound_b (ec_post c)) 4
    + bitN (match ec_res c with
            | EStatechartError | EValueError => chart_eqb (ec_pre c) (ec_post c)
            | _ => true
@@ -32,7 +82,14 @@ Definition check_ecase (c : ecase) : N :=
                              Z.eqb (depth_for (ec_post c) n) (fst (snd q))
                              && strs_eqb (ancestors_for (ec_post c) n) (fst (snd (snd q)))
                              && strs_eqb (descendants_for (ec_post c) n) (snd (snd (snd q))))
-                   (ec_queries c)) 16)%N.
+                   (ec_queries c)) 16
+   + bitN (match ec_op c, ec_res c with
+           | ERemoveState n, EOk =>
+               let m := removed_objects (ec_pre c) n in
+               Nat.eqb (length m) (length (ec_removed c))
+               && forallb (fun st => existsb (state_eqb st) m) (ec_removed c)
+           | _, _ => true
+           end) 32)%N.
 
 Fixpoint check_efrom (i : N) (cs : list ecase) : list (N * N) :=
   match cs with
